@@ -1,4 +1,5 @@
 import FinamModel.MaskLemmas
+import FinamModel.Props.C15
 /-!
   C18 — masked data: compression round-trips and mask rules are as documented.
 
@@ -112,5 +113,264 @@ def exMask : Arr Bool := Arr.ofFlat .C [2, 3] [true, false, false, false, false,
 example : keptValues exData .F exMask = [4, 2, 5, 3] ∧
     (fromCompressed [4, 2, 5, 3] [2, 3] .F (.arr exMask) false).toOption.map (·.data.toList) =
       some [none, some 2, some 3, some 4, some 5, none] := by decide
+
+/-! ### `prepare` under a fixed mask -/
+
+/-- what `prepare` must produce under an info with the fixed mask `m`: shape `1 :: data_shape`,
+    a masked array whose mask is exactly `m`, and the payload's values (`src i` = the payload
+    element that belongs at grid index `i`) -/
+def Prepared (gshape : List Nat) (m : Arr Bool) (src : List Nat → Int) (r : Payload) : Prop :=
+  r.data.shape = 1 :: gshape ∧
+  ∃ rm, r.dmask = some (some rm) ∧ rm.shape = 1 :: gshape ∧
+    ∀ i, InB gshape i → rm.get (0 :: i) = m.get i ∧ r.data.get (0 :: i) = src i
+
+/-- payload already in the grid's data shape -/
+theorem prepare_applies_fixed_mask_shaped (gshape : List Nat) (o : Order) (m : Arr Bool) (x : Payload)
+    (hm : m.shape = gshape) (hx : x.data.shape = gshape) (hp : x.dmask = none) (hl : gshape.length ≠ 1)
+    (hne : gshape ≠ []) :
+    ∃ r, prepare gshape o (.arr m) x = .ok r ∧ Prepared gshape m x.data.get r := by
+  have h1 : (x.data.ndim == 1) = false := by simpa [Arr.ndim, hx] using hl
+  have hpm : prepMask o (.arr m) x = .arr m := by simp [prepMask, h1]
+  have hat : attachMask x.data.shape (.arr m) = .ok m := by simp [attachMask, hm, hx]
+  refine ⟨{ x with data := x.data.expandDims0, dmask := some (some m.expandDims0) }, ?_, ?_⟩
+  · simp only [prepare, hpm, prepAttach_plain (.arr m) _ x rfl hp m hat]
+    rw [checkInputShape_shaped gshape o { x with dmask := some (some m) } hx hl hne]
+    rfl
+  · exact ⟨by simp [Arr.expandDims0, hx], m.expandDims0, rfl, by simp [Arr.expandDims0, hm],
+      fun i _ => ⟨rfl, rfl⟩⟩
+
+/-- payload with a time axis of length one in front -/
+theorem prepare_applies_fixed_mask_time (gshape : List Nat) (o : Order) (m : Arr Bool) (x : Payload)
+    (hm : m.shape = gshape) (hx : x.data.shape = 1 :: gshape) (hp : x.dmask = none) (hne : gshape ≠ []) :
+    ∃ r, prepare gshape o (.arr m) x = .ok r ∧ Prepared gshape m (fun i => x.data.get (0 :: i)) r := by
+  have hlen : gshape.length ≠ 0 := by simpa using hne
+  have h1 : (x.data.ndim == 1) = false := by
+    simp only [Arr.ndim, hx, List.length_cons, beq_eq_false_iff_ne, ne_eq]; omega
+  have hpm : prepMask o (.arr m) x = .arr m := by simp [prepMask, h1]
+  have hsh : (gshape == 1 :: gshape) = false := by
+    simp only [beq_eq_false_iff_ne, ne_eq]
+    intro h; have := congrArg List.length h; simp at this
+  have hmask : ∃ rm, attachMask (1 :: gshape) (.arr m) = .ok rm ∧ rm.shape = 1 :: gshape ∧
+      ∀ i, InB gshape i → rm.get (0 :: i) = m.get i := by
+    by_cases hone : prod gshape = 1
+    · refine ⟨⟨1 :: gshape, fun _ => m.get (unravelC m.shape 0)⟩, ?_, rfl, ?_⟩
+      · simp only [attachMask, hm, hsh, Bool.false_eq_true, if_false, hone, beq_self_eq_true, if_true]
+      · intro i hi
+        have := ravelC_lt gshape i hi
+        have h0 : ravelC gshape i = 0 := by omega
+        simp only [hm]
+        rw [← h0, unravel_ravelC gshape i hi]
+    · refine ⟨m.reshape .C (1 :: gshape), ?_, rfl, ?_⟩
+      · have hne1 : (prod gshape == 1) = false := by simpa using hone
+        simp only [attachMask, hm, hsh, Bool.false_eq_true, if_false, hne1, prod, Nat.one_mul,
+          beq_self_eq_true, if_true]
+      · intro i hi
+        simp only [Arr.reshape, hm]
+        rw [ravel_cons_zero .C gshape i hi.length_eq, unravel_ravel .C gshape i hi]
+  obtain ⟨rm, hrm1, hrm2, hrm3⟩ := hmask
+  refine ⟨{ x with dmask := some (some rm) }, ?_, hx, rm, rfl, hrm2, fun i hi => ⟨hrm3 i hi, rfl⟩⟩
+  simp only [prepare, hpm, prepAttach_plain (.arr m) _ x rfl hp rm (hx ▸ hrm1)]
+  exact checkInputShape_time gshape o { x with dmask := some (some rm) } hx hne
+
+/-- flat payload (one value per grid element, given in the grid's order): the mask lands in grid
+    order as well — `prepare` flattens it with `order=info.grid.order` before attaching it. -/
+theorem prepare_applies_fixed_mask_flat (gshape : List Nat) (o : Order) (m : Arr Bool) (x : Payload)
+    (hm : m.shape = gshape) (hx : x.data.shape = [prod gshape]) (hp : x.dmask = none) (hne : gshape ≠ []) :
+    ∃ r, prepare gshape o (.arr m) x = .ok r ∧
+      Prepared gshape m (fun i => x.data.get [ravel o gshape i]) r := by
+  have hlen : gshape.length ≠ 0 := by simpa using hne
+  have h1 : (x.data.ndim == 1) = true := by simp [Arr.ndim, hx]
+  -- the mask attached to the flat payload
+  have hmask : ∃ fm : Arr Bool, attachMask x.data.shape (prepMask o (.arr m) x) = .ok fm ∧
+      fm.shape = [prod gshape] ∧ ∀ i, InB gshape i → fm.get [ravel o gshape i] = m.get i := by
+    by_cases hnd : m.ndim > 1
+    · refine ⟨⟨[prod m.shape], fun i => m.get (unravel o m.shape (i.getD 0 0))⟩, ?_, by simp [hm], ?_⟩
+      · simp [prepMask, h1, hnd, attachMask, hx, hm]
+      · intro i hi
+        simp only [hm, List.getD_cons_zero]
+        rw [unravel_ravel o gshape i hi]
+    · -- a one-dimensional grid: the mask is flat already
+      have hg1 : gshape.length = 1 := by simp only [Arr.ndim, hm] at hnd; omega
+      obtain ⟨n, rfl⟩ : ∃ n, gshape = [n] := by
+        cases gshape with
+        | nil => simp at hg1
+        | cons n r => cases r with
+          | nil => exact ⟨n, rfl⟩
+          | cons _ _ => simp at hg1
+      refine ⟨m, ?_, by simp [hm, prod], ?_⟩
+      · simp [prepMask, h1, hnd, attachMask, hx, hm, prod]
+      · intro i hi
+        cases i with
+        | nil => simp [InB] at hi
+        | cons k r => cases r with
+          | nil => rw [ravel_singleton]
+          | cons _ _ => simp [InB] at hi
+  obtain ⟨fm, hf1, hf2, hf3⟩ := hmask
+  refine ⟨{ x with data := x.data.reshape o (1 :: gshape), dmask := some (some (fm.reshape o (1 :: gshape))) }, ?_,
+    rfl, fm.reshape o (1 :: gshape), rfl, rfl, ?_⟩
+  · simp only [prepare, prepAttach_plain (.arr m) _ x rfl hp fm hf1]
+    rw [checkInputShape_flat gshape o { x with dmask := some (some fm) } hx hne]
+    rfl
+  · intro i hi
+    simp only [Arr.reshape, hf2, hx]
+    rw [ravel_cons_zero o gshape i hi.length_eq, unravel_singleton]
+    exact ⟨hf3 i hi, rfl⟩
+
+/-- **C18, second sentence.** Preparing a payload without a mask of its own (flat in grid order,
+    in the grid's data shape, or with a leading time axis of length one; plain or quantified) under
+    metadata with the fixed mask `m` succeeds and applies exactly `m`: the prepared array has shape
+    `1 :: data_shape`, its mask at `[0, i]` is `m[i]`, and its value there is the payload's value for
+    grid index `i`. -/
+theorem prepare_applies_fixed_mask (gshape : List Nat) (o : Order) (m : Arr Bool) (x : Payload)
+    (hm : m.shape = gshape) (hp : x.dmask = none) (hne : gshape ≠ [])
+    (hx : x.data.shape = [prod gshape] ∨ (x.data.shape = gshape ∧ gshape.length ≠ 1) ∨ x.data.shape = 1 :: gshape) :
+    ∃ r src, prepare gshape o (.arr m) x = .ok r ∧ Prepared gshape m src r := by
+  rcases hx with h | ⟨h, hl⟩ | h
+  · obtain ⟨r, h1, h2⟩ := prepare_applies_fixed_mask_flat gshape o m x hm h hp hne
+    exact ⟨r, _, h1, h2⟩
+  · obtain ⟨r, h1, h2⟩ := prepare_applies_fixed_mask_shaped gshape o m x hm h hp hl hne
+    exact ⟨r, _, h1, h2⟩
+  · obtain ⟨r, h1, h2⟩ := prepare_applies_fixed_mask_time gshape o m x hm h hp hne
+    exact ⟨r, _, h1, h2⟩
+
+/-- non-vacuity: the input of finding F17 (flat payload, Fortran-ordered 2x3 grid) -/
+def exMask2 : Arr Bool := Arr.ofFlat .C [2, 3] [true, true, false, false, false, false] false
+example : (prepare [2, 3] .F (.arr exMask2) ⟨Arr.ofFlat .C [6] [1, 2, 3, 4, 5, 6] 0, none, false⟩).toOption.map
+      (fun r => (r.data.toList, r.dmask.map (Option.map Arr.toList))) =
+    some ([1, 3, 5, 2, 4, 6], some (some [true, true, false, false, false, false])) := by decide
+
+/-! ### The acceptance table
+
+`cons` is the consumer's mask specification (`this` of `Info.accepts` with
+`incoming_donwstream=False`), `prod` the producer's; `cg`, `pg` their grids. -/
+
+/-- a fixed mask: `nomask` or a boolean array -/
+def Fixed : MaskSpec → Prop
+  | .nomask => True
+  | .arr _ => True
+  | _ => False
+
+/-- **C18, third sentence: the table.** A flexible consumer accepts any producer specification; an
+    unmasked consumer only an unmasked producer; a fixed-mask consumer only a producer with a fixed
+    mask, and then exactly when `masks_equal` holds. -/
+theorem mask_accept_table (cons prod : MaskSpec) (cg pg : Option GridRef) (hp : prod.isPyNone = false) :
+    masksCompatible cons prod false cg pg =
+      match cons with
+      | .flex => .ok true
+      | .none_ => .ok (match prod with | .none_ => true | _ => false)
+      | .pyNone => (match prod with | .nomask => masksEqual cons prod cg pg | .arr _ => masksEqual cons prod cg pg | _ => .ok false)
+      | .nomask => (match prod with | .nomask => masksEqual cons prod cg pg | .arr _ => masksEqual cons prod cg pg | _ => .ok false)
+      | .arr _ => (match prod with | .nomask => masksEqual cons prod cg pg | .arr _ => masksEqual cons prod cg pg | _ => .ok false) := by
+  cases cons <;> cases prod <;>
+    first
+    | exact absurd hp (by decide)
+    | simp [masksCompatible, MaskSpec.isPyNone, MaskSpec.specified]
+
+/-- the producer-side check (`Output.get_info`: `incoming_donwstream=True`) is the same relation
+    with the roles swapped -/
+theorem producer_side_check (prod cons : MaskSpec) (pg cg : Option GridRef) :
+    masksCompatible prod cons true pg cg = masksCompatible cons prod false cg pg := by
+  simp [masksCompatible]
+
+/-- `Info.accepts` reports a mask failure exactly when the table rejects (consumer side) -/
+theorem accepts_iff_table (cons prod : MaskSpec) (cg pg : Option GridRef) (hc : cons.isPyNone = false) :
+    acceptsMask cons prod false cg pg = masksCompatible cons prod false cg pg := by
+  unfold acceptsMask
+  rw [hc]
+  simp only [Bool.false_eq_true, if_false, Bool.false_and]
+  cases masksCompatible cons prod false cg pg with
+  | error e => rfl
+  | ok b => cases b <;> rfl
+
+/-- a mask with nothing masked equals `nomask` and nothing else does -/
+theorem fixed_equal_nomask (m : Arr Bool) (cg pg : Option GridRef) :
+    masksEqual .nomask (.arr m) cg pg = .ok (allFalse m.toList) ∧
+    masksEqual (.arr m) .nomask cg pg = .ok (allFalse m.toList) ∧
+    masksEqual .nomask .nomask cg pg = .ok true := ⟨rfl, rfl, rfl⟩
+
+/-- without both grids the arrays themselves are compared -/
+theorem fixed_equal_without_grids (a b : Arr Bool) (pg : Option GridRef) :
+    (masksEqual (.arr a) (.arr b) none pg = .ok true ↔
+      a.shape = b.shape ∧ ∀ i, InB a.shape i → a.get i = b.get i) ∧
+    (masksEqual (.arr a) (.arr b) pg none = .ok true ↔
+      a.shape = b.shape ∧ ∀ i, InB a.shape i → a.get i = b.get i) := by
+  have key : (masksEqual (.arr a) (.arr b) none pg = .ok true ↔
+      a.shape = b.shape ∧ ∀ i, InB a.shape i → a.get i = b.get i) := by
+    simp only [masksEqual]
+    by_cases hn : a.ndim = b.ndim
+    · simp only [hn, bne_self_eq_false, Bool.false_eq_true, if_false, Except.ok.injEq, Bool.and_eq_true,
+        beq_iff_eq]
+      constructor
+      · rintro ⟨h1, h2⟩; exact ⟨h1, (toList_eq_iff a b h1).mp h2⟩
+      · rintro ⟨h1, h2⟩; exact ⟨h1, (toList_eq_iff a b h1).mpr h2⟩
+    · have : (a.ndim != b.ndim) = true := by simpa using hn
+      simp only [this, if_true, Except.ok.injEq, Bool.false_eq_true, false_iff, not_and]
+      intro h1; exact absurd (by simp [Arr.ndim, h1]) hn
+  refine ⟨key, ?_⟩
+  cases pg with
+  | none => exact key
+  | some g =>
+    simp only [masksEqual]
+    by_cases hn : a.ndim = b.ndim
+    · simp only [hn, bne_self_eq_false, Bool.false_eq_true, if_false, Except.ok.injEq, Bool.and_eq_true,
+        beq_iff_eq]
+      constructor
+      · rintro ⟨h1, h2⟩; exact ⟨h1, (toList_eq_iff a b h1).mp h2⟩
+      · rintro ⟨h1, h2⟩; exact ⟨h1, (toList_eq_iff a b h1).mpr h2⟩
+    · have : (a.ndim != b.ndim) = true := by simpa using hn
+      simp only [this, if_true, Except.ok.injEq, Bool.false_eq_true, false_iff, not_and]
+      intro h1; exact absurd (by simp [Arr.ndim, h1]) hn
+
+/-- **C18, third sentence: "equal after accounting for grid layout".** For masks `a`, `b` given in
+    the data shapes of two compatible structured grids `g`, `h` (any two layouts of one geometry),
+    `masks_equal` holds exactly when the two masks carry the same flag at every canonical position,
+    i.e. at every physical location (`C15.compatible_same_locations`: `dataIdx g c` and
+    `dataIdx h c` lie at the same coordinate). -/
+theorem fixed_equal_after_layout (g h : SGrid) (hg : C15.WF g) (hh : C15.WF h)
+    (hc : g.compatibleWith h = true) (a b : Arr Bool) (ha : a.shape = g.dataShape) (hb : b.shape = h.dataShape) :
+    masksEqual (.arr a) (.arr b) (some (.structured g)) (some (.structured h)) = .ok true ↔
+      ∀ c, InB (C15.xyzShape g) c → a.get (C15.dataIdx g c) = b.get (C15.dataIdx h c) := by
+  obtain ⟨hx, _⟩ := C15.compatible_same_locations g h hg hh hc
+  obtain ⟨ca, hca1, hca2, hca3⟩ := C15.toCanonical_spec g hg a [] (by simp [ha])
+  obtain ⟨cb, hcb1, hcb2, hcb3⟩ := C15.toCanonical_spec h hh b [] (by simp [hb])
+  have hn : a.ndim = b.ndim := by
+    simp only [Arr.ndim, ha, hb, C15.dataShape_length g hg, C15.dataShape_length h hh]
+    have := congrArg List.length hx
+    simpa [C15.xyz_length] using this
+  simp only [List.append_nil] at hca2 hcb2
+  have hsh : ca.shape = cb.shape := by rw [hca2, hcb2, hx]
+  simp only [masksEqual, hn, bne_self_eq_false, Bool.false_eq_true, if_false, GridRef.toCanonical, hca1, hcb1,
+    Except.ok.injEq, Bool.and_eq_true, beq_iff_eq]
+  constructor
+  · rintro ⟨_, h2⟩ c hcin
+    have := (toList_eq_iff ca cb hsh).mp h2 c (by rw [hca2]; exact hcin)
+    have e1 := hca3 c [] hcin.length_eq rfl
+    have e2 := hcb3 c [] (by rw [← hx]; exact hcin.length_eq) rfl
+    simp only [List.append_nil, List.reverse_nil, List.nil_append, ite_self] at e1 e2
+    rw [← e1, ← e2]; exact this
+  · intro hall
+    refine ⟨hsh, (toList_eq_iff ca cb hsh).mpr ?_⟩
+    intro c hcin
+    rw [hca2] at hcin
+    have e1 := hca3 c [] hcin.length_eq rfl
+    have e2 := hcb3 c [] (by rw [← hx]; exact hcin.length_eq) rfl
+    simp only [List.append_nil, List.reverse_nil, List.nil_append, ite_self] at e1 e2
+    rw [e1, e2]; exact hall c hcin
+
+/-- non-vacuity: the same physical mask in two layouts is accepted, a different one is not, and a
+    fixed-mask consumer without a grid still compares the arrays (finding F9) -/
+def exG : SGrid := ⟨[[0, 1, 2], [0, 2, 4, 6]], [true, true], false, .F, .cells, none⟩
+def exH : SGrid := ⟨[[0, 1, 2], [0, 2, 4, 6]], [true, false], true, .C, .cells, none⟩
+def exA : Arr Bool := Arr.ofFlat .C [2, 3] [true, true, false, false, false, false] false
+def exA' : Arr Bool := Arr.ofFlat .C [3, 2] [false, false, true, false, true, false] false
+def exB : Arr Bool := Arr.ofFlat .C [2, 3] [false, false, false, false, false, true] false
+example :
+    masksCompatible (.arr exA') (.arr exA) false (some (.structured exH)) (some (.structured exG)) = .ok true ∧
+    masksCompatible (.arr exA) (.arr exB) false (some (.structured exG)) (some (.structured exG)) = .ok false ∧
+    masksCompatible (.arr exA) (.arr exB) false none (some (.structured exG)) = .ok false ∧
+    masksCompatible .flex (.arr exB) false none none = .ok true ∧
+    masksCompatible .none_ (.arr exB) false none none = .ok false ∧
+    masksCompatible .none_ .none_ false none none = .ok true ∧
+    masksCompatible (.arr exA) .flex false none none = .ok false := by decide +kernel
 
 end Finam.Props.C18
